@@ -82,6 +82,13 @@ class deque:
         self.items = tail(self.items)
         return x
 
+    def pop(self):
+        if len(self.items) == 0:
+            raise IndexError
+        x = self.items[len(self.items) - 1]
+        self.items = self.items[:len(self.items) - 1]
+        return x
+
     def appendleft(self, x):
         self.items = unit(x) + self.items
 
